@@ -1015,24 +1015,28 @@ func verifIsTypeName(s string) bool {
 func VerifClasses(n int) {
 	names := verifClassNames[n]
 	level := verifapi.Concrete(verifapi.Int("level", 0, 2))
-	visHi, modHi := 2, 2
+	visHi, modHi := 2, 4
 	if n > 0 { // collision jobs: visibility and module variants are covered by job 0
 		visHi, modHi = 0, 1
 	}
 	vis := verifapi.Concrete(verifapi.Int("vis", 0, visHi)) // 0 public (no keyword), 1 private, 2 protected
 	recv := verifapi.Concrete(verifapi.Int("recv", 0, 2))
-	mod := verifapi.Concrete(verifapi.Int("module", 0, modHi)) // 0 none, 1 include, 2 extend
+	mod := verifapi.Concrete(verifapi.Int("module", 0, modHi)) // 0 none, 1 include, 2 extend, 3 include+extend, 4 extend+include
 	s := verifInstallSym("a")
 	verifapi.WitnessList("Sym.a", verifKN(s.ka))
 	visKw := []string{"", "private\n", "protected\n"}[vis]
 	fooDef := visKw + "def foo\nSym.a\nend\n"
 	src := "module Mm\ndef mod_m\n1\nend\nend\n"
 	src += "class " + names[0] + "\n"
-	if mod == 1 {
+	switch mod {
+	case 1:
 		src += "include Mm\n"
-	}
-	if mod == 2 {
+	case 2:
 		src += "extend Mm\n"
+	case 3:
+		src += "include Mm\nextend Mm\n"
+	case 4:
+		src += "extend Mm\ninclude Mm\n"
 	}
 	src += "def initialize(x)\n@x = x\nend\nclass << self\ndef cm\n\"s\"\nend\nend\n"
 	if level == 0 {
@@ -1061,10 +1065,12 @@ func VerifClasses(n int) {
 	src += "dbtp " + r + ".new(1).nope\n" // +4
 	src += "dbtp " + r + ".new\n"         // +5
 	src += "dbtp " + names[1] + ".new(1).bar\n" // +6
+	src += "dbtp " + r + ".mod_m\n"            // +7 (class-level module method, when extended)
 	verifapi.Witness("src", src)
 	out := verifRun(src)
 	verifapi.Reach("ran")
-	shape := "names-" + names[0] + "-" + names[1] + "-" + names[2] + "/foo-in-level" + verifItoa(level) + "-" + []string{"public", "private", "protected"}[vis] + "/receiver-level" + verifItoa(recv) + "/module-" + []string{"none", "included", "extended"}[mod]
+	modName := []string{"none", "included", "extended", "included-then-extended", "extended-then-included"}[mod]
+	shape := "names-" + names[0] + "-" + names[1] + "-" + names[2] + "/foo-in-level" + verifItoa(level) + "-" + []string{"public", "private", "protected"}[vis] + "/receiver-level" + verifItoa(recv) + "/module-" + modName
 	collide := "fresh-names"
 	if n > 0 {
 		collide = "name-collides-with-configured-class"
@@ -1086,7 +1092,10 @@ func VerifClasses(n int) {
 	}
 	verifExpect(out, "C16-cm", "C16/class-method-from-class-self-not-inherited/"+collide, base0+2, "String")
 	if mod != 0 {
-		verifExpect(out, "C16-mod", "C16/module-method-not-resolved/"+[]string{"", "included", "extended"}[mod]+"/"+collide, base0+3, "Integer")
+		verifExpect(out, "C16-mod", "C16/module-method-not-resolved/"+modName+"/"+collide, base0+3, "Integer")
+	}
+	if mod >= 3 {
+		verifExpect(out, "C16-mod-class", "C16/extended-module-method-not-resolved-on-the-class/"+modName+"/"+collide, base0+7, "Integer")
 	}
 	verifapi.Witness("C16-nope.row", verifItoa(base0+4))
 	verifapi.Witness("C16-nope.demand", "diagnostic-not-a-type")
